@@ -6,11 +6,23 @@ META = dict(
     engine="coq+hx_core",
     technique="Coq proof about the executable database model + differential correspondence of the extracted model with the real agdb on generated query "
               "histories and on an exhaustive enumeration of small multigraphs, with a direct shortest-path oracle on the implementation's answers",
-    # PLACEHOLDER level_text — to be rewritten by the proof agent once coq/Props/C17.v is final
-    level_text="PLACEHOLDER (proof agent rewrites this): theorems of coq/Props/C17.v about the path search of coq/theories/Search.v "
-               "(result is a directed alternating path origin..destination of minimal cost, elements failing the conditions cost 2 and are not listed, "
-               "empty exactly when no usable path exists or origin = destination); the model is tied to /repo by differential execution "
-               "(random search-profile histories + every multigraph up to the enumeration bound, all node pairs).",
+    level_text="Machine-checked theorems (coq/Props/C17.v, all FULL, closed under the global context, for every revision) about the model of PathSearch + PathHandler "
+               "(coq/theories/Search.v path_loop/path_search) for every database whose slot graph satisfies the explicit adjacency hypothesis adj_ok "
+               "(coq/theories/AdjOk.v; decidable checker proved sound; to be discharged from the graph invariant of C08) and for DISTANCE-INDEPENDENT condition lists "
+               "(dist_free: no distance condition and no beyond modifier at any depth; C17_dist_free proves the evaluation then ignores the distance argument, so every "
+               "element has one cost: 1 if it passes the conditions, 2 if not, unusable if the conditions stop there - C17_ecost): C17_sound (a non-empty internal "
+               "result is an alternating node/edge path from origin to destination following edge direction, every element after the origin usable, flags = "
+               "selection), C17_optimal (Dijkstra invariant: its cost is <= the cost of every usable path), C17_empty_iff (the internal result is empty exactly when "
+               "no usable path exists), C17_path_search / C17_path_search_sound (path_search returns the selected sub-list of a minimum-cost usable path, or [] when "
+               "none exists), C17_degenerate (origin = destination or an endpoint that is no node gives []), C17_no_conditions_empty_iff / C17_no_conditions_shortest "
+               "(without conditions: empty iff no path / equal endpoints / non-node endpoint; otherwise a path with the fewest elements), C17_no_fuel / "
+               "C17_loop_no_fuel (fuel never exhausted, every condition list), C17_sound_any_conditions (for arbitrary conditions the answer is still the selected "
+               "sub-list of a real path). Documented limits, each with a vm_compute example in Props/C17.v: the FINAL result can be empty although a usable path exists "
+               "when no element of the cheapest path passes the conditions (C17_nothing_selected), and for distance-dependent conditions the code's 'distance' is the "
+               "current path length, cost becomes path-dependent and a usable path can be missed (C17_distance_dependent) - optimality is stated for dist_free "
+               "conditions only. The model is tied to /repo on every run by differential execution of the extracted model against the real agdb: random "
+               "search-profile histories (path searches with random conditions) plus EVERY multigraph up to the enumeration bound with all ordered node pairs "
+               "(identical results incl. tie-breaking), together with a direct shortest-path oracle on the implementation's answers.",
     design_ref="DESIGN.md §5 C17",
     level_note="Trusted: Coq kernel, extraction (ExtrOcamlBasic), OCaml driver, Rust harness/generators. Theorems are about the model (theories/Search.v etc.); "
                "the tie to the code is differential execution of generated histories and of the exhaustive small-graph enumeration (every query result compared).",
@@ -47,6 +59,10 @@ def run(ctx):
              "non-trivial = history that reached a state with >= 2 nodes and an edge"
              % (r["histories"], PROFILE, steps, nodes, edges, scope, s["histories"]),
         failures=failures, disagreements=m["disagreements"],
-        assumptions=["the direct oracle decides minimality only for path searches without conditions (all costs 1); minimal cost under conditions and "
+        assumptions=["the theorems are stated under the explicit hypothesis adj_ok (gr d) about the slot graph (coq/theories/AdjOk.v), decidable (adj_okb, proved "
+                     "sound), shown for graphs built with the real operations, to be discharged for all reachable states from the graph invariant proved for C08",
+                     "minimality is proved for distance-independent condition lists (dist_free); for conditions that read the distance the code's cost is "
+                     "path-dependent (witness C17_distance_dependent) and only soundness (C17_sound_any_conditions) is proved",
+                     "the direct oracle decides minimality only for path searches without conditions (all costs 1); minimal cost under conditions and "
                      "tie-breaking are decided by the model, which the implementation is compared with"],
     )
